@@ -351,7 +351,45 @@ func SimpleOperand(in any) bool {
 //@   ensures[boundary-errors-propagate] IsBoundaryVal(in) && err == nil ==> SerializeErr(b, BoundaryOf(in).Min) == nil && SerializeErr(b, BoundaryOf(in).Max) == nil
 //@   ensures[string-quoted] IsStringVal(in) ==> err == nil && s == "'"+strings.ReplaceAll(StringOf(in), "'", "''")+"'"
 //@   ensures[column-quoted] IsColumnVal(in) && err == nil ==> len(ColumnOf(in)) > 0 && !strings.ContainsRune(ColumnOf(in), '"') && s == "\""+ColumnOf(in)+"\""
+//@   ensures[x-expression-text] IsExprVal(in) ==> s == RenderText(b, ExprOf(in))
+//@   ensures[value-text-nonempty] err == nil && (IsStringVal(in) || IsColumnVal(in) || IsPlainNumber(in) || IsBoundaryVal(in)) ==> s != ""
 //@   loop 0: rangeinv true
+
+// IsPlainNumber: an int or a float64 (the numbers the parser and the decoder produce).
+func IsPlainNumber(a any) bool {
+	switch a.(type) {
+	case int, float64:
+		return true
+	}
+	return false
+}
+
+// RenderText: the SQL Render returns for a node.
+func RenderText(b Base, e *expr.Expression) string {
+	s, _ := b.Render(e)
+	return s
+}
+
+// LemmaRenderedNonEmpty: with the repository's own render functions, a parser-built
+// tree that renders without error renders to a non-empty text (C10: ToPostgres returns
+// a non-empty string with a nil error or an empty one with an error).  Every template
+// writes its left operand or a constant piece; terms are quoted or numbers; induction
+// descends to the left.
+//
+//@ func LemmaRenderedNonEmpty
+//@   lemma
+//@   structural
+//@   props C10
+//@   fuel 2 ShapeP=2 RenderOK=2
+//@   use serialize: x-expression-text
+//@   requires Builtin(b) && RangAt(b) && ListAt(b) && expr.ShapeP(e) && RenderOK(e)
+//@   ensures  RenderErr(b, e) == nil ==> RenderText(b, e) != ""
+
+func LemmaRenderedNonEmpty(b Base, e *expr.Expression) {
+	if le, ok := e.Left.(*expr.Expression); ok && !expr.LeafOp(e.Op) && e.Op != expr.List {
+		LemmaRenderedNonEmpty(b, le)
+	}
+}
 
 // ---- the parameterised renderer ---------------------------------------------------------------------
 
@@ -467,10 +505,24 @@ func LemmaParsedRenderable(a any) {
 	}
 }
 
+// ListAt: the value-list operator is rendered by the list template.
+func ListAt(b Base) bool {
+	f, ok := b.RenderFNs[expr.List]
+	return ok && verifspec.SameFn(f, list)
+}
+
+// PostgresTable: what NewPostgresDriver builds.  NewPostgresDriver takes no argument
+// and reads only the init-only table Shared, so running it once decides this contract
+// (harness/c15t_test.go does, on every run); the engine itself does not verify loops
+// over maps, hence "trusted".
+func PostgresTable(b Base) bool {
+	return Builtin(b) && RangAt(b) && ListAt(b) && !Registered(b, expr.Fuzzy) && !Registered(b, expr.Boost)
+}
+
 //@ func NewPostgresDriver
 //@   trusted
 //@   props C15 C14
-//@   ensures Builtin(result.Base) && RangAt(result.Base)
+//@   ensures Builtin(result.Base) && RangAt(result.Base) && ListAt(result.Base)
 //@   ensures !Registered(result.Base, expr.Fuzzy) && !Registered(result.Base, expr.Boost)
 
 // LemmaDecodedBoundaryRenderable: a decoded range boundary (two decoded leaves) can be rendered.
